@@ -70,7 +70,7 @@ func Artefact(w *World) map[string]interface{} {
 	for _, e := range w.Trace {
 		evs = append(evs, [3]int{int(e.Kind), int(e.To), e.Idx})
 	}
-	return map[string]interface{}{"n": c.N, "height": int(c.Height), "byz": int(c.Byz), "start": start, "policy": pol, "max_round": int(c.MaxRound), "role": int(c.Role),
+	return map[string]interface{}{"n": c.N, "height": int(c.Height), "byz": int(c.Byz), "start": start, "policy": pol, "max_round": int(c.MaxRound), "role": int(c.Role), "silent": silentInts(c),
 		"events": evs, "readable": w.DescribeTrace(), "final": w.Summary()}
 }
 
@@ -80,6 +80,11 @@ func FromArtefact(t map[string]interface{}) (*Cfg, []Event, error) {
 		MaxRound: specqbft.Round(t["max_round"].(float64)), Role: spectypes.BNRoleAttester}
 	if rl, ok := t["role"].(float64); ok {
 		c.Role = spectypes.BeaconRole(rl)
+	}
+	if sl, ok := t["silent"].([]interface{}); ok {
+		for _, x := range sl {
+			c.Silent = append(c.Silent, spectypes.OperatorID(x.(float64)))
+		}
 	}
 	c.Init()
 	c.Start = map[spectypes.OperatorID]byte{}
@@ -110,4 +115,30 @@ func Policies4(c *Cfg) []*Policy {
 		return nil
 	}
 	return Policies(c.Honest)
+}
+
+func silentInts(c *Cfg) []int {
+	out := []int{}
+	for _, x := range c.Silent {
+		out = append(out, int(x))
+	}
+	return out
+}
+
+// ConfigsTwoFaulty: n=7 with f=2 faulty members - one Byzantine with a policy of the limited
+// library and one silent operator.
+func ConfigsTwoFaulty(R specqbft.Round) []*Cfg {
+	var out []*Cfg
+	for _, pair := range [][2]spectypes.OperatorID{{1, 7}, {2, 3}, {3, 1}} {
+		base := &Cfg{N: 7, Height: 0, Byz: pair[0], Silent: []spectypes.OperatorID{pair[1]}, MaxRound: R, Role: spectypes.BNRoleAttester}
+		base.Init()
+		for _, p := range append([]*Policy{nil}, PoliciesLimited(base.Honest)...) {
+			for _, st := range StartAssignments(base.Honest) {
+				c := *base
+				c.Policy, c.Start = p, st
+				out = append(out, &c)
+			}
+		}
+	}
+	return out
 }
